@@ -129,3 +129,27 @@ Definition thermal_cx_pec_witness : pcase :=
 Lemma code_thermal_cx_pec_refuted :
   relevant thermal_cx_pec_witness = true /\ spec_ok thermal_cx_pec_witness (code_outcome thermal_cx_pec_witness) = false.
 Proof. split; vm_compute; reflexivity. Qed.
+
+(* ---- histories: what a call returns depends on the repository content at the time of the call and on
+   nothing else -- not on which calls were made before it on the same provider ---- *)
+Lemma hrun_app p n f ops2 : forall st ops1,
+  hrun p n f st (ops1 ++ ops2) = hrun p n f st ops1 ++ hrun p n f (hfinal st ops1) ops2.
+Proof.
+  intros st ops1. revert st. induction ops1 as [|o r IH]; intros st; [reflexivity|].
+  destruct o; cbn [app hrun hfinal fold_left hstep]; rewrite IH; reflexivity.
+Qed.
+
+Lemma hfinal_ignores_calls ops : forall st, hfinal st (filter is_set ops) = hfinal st ops.
+Proof.
+  induction ops as [|o r IH]; intros st; [reflexivity|].
+  destruct o; cbn [filter is_set hfinal fold_left hstep]; apply IH.
+Qed.
+
+Lemma history_last_call p n f ops a x1 x2 rs wi we :
+  hrun p n f st0 (ops ++ [HCall a x1 x2 rs wi we])
+  = hrun p n f st0 ops ++ [model_outcome (hcase p n f (hfinal st0 (filter is_set ops)) a x1 x2 rs wi we)].
+Proof. rewrite hrun_app, hfinal_ignores_calls. reflexivity. Qed.
+
+Lemma history_outcome_meets_spec p n f st a x1 x2 rs wi we :
+  spec_ok (hcase p n f st a x1 x2 rs wi we) (model_outcome (hcase p n f st a x1 x2 rs wi we)) = true.
+Proof. apply model_meets_spec. Qed.
